@@ -156,6 +156,18 @@ def gen_program(rng: random.Random, focus: str, pid: int) -> dict:
             if kind == "arc" and rng.random() < 0.15:
                 e["degenerate"] = True              # collinear arc: must be dropped
             op["edges"].append(e)
+    if pid % 5 == 0 and focus in ("edges", "addressing") and plain(ops[0]):
+        # one Project object on four edges of the first operation (two of the bottom face, one of the top face, one upright):
+        # every one of them is written - not left to the random choices above
+        op = ops[0]
+        op["share_project"] = True
+        lab = [rng.choice(LABELS)]
+        for (c1, c2) in ((0, 1), (1, 2), (4, 5), (1, 5)):
+            op["edges"] = [e for e in op["edges"] if {e["pa"], e["pb"]} != {op["pts0"][c1], op["pts0"][c2]}]
+            eid += 1
+            op["edges"].append({"pa": op["pts0"][c1], "pb": op["pts0"][c2], "where": ["any", 0], "kind": "project", "id": eid,
+                                "labels": list(lab), "first_labels": list(lab), "degenerate": False, "implicit": False, "swap": False,
+                                "directed": False, "outkind": "project"})
     # projections of sides and corners
     if focus in ("file", "addressing"):
         for op in ops:
